@@ -48,8 +48,11 @@ class LiquidNode(Node):
     def __str__(self) -> str:
         # NOTE: We're using a string representation of the token, not the node.
         # Which might cause issues later.
-        expr = self.liquid_token.value if self.liquid_token else ""
-        return f"{{% liquid {expr} %}}"
+        if self.liquid_token is None:
+            # An empty tag. If it was immediately followed by another tag, the
+            # parser attached the rest of the template to this node's block.
+            return f"{{% liquid %}}{self.block}"
+        return f"{{% liquid {self.liquid_token.value} %}}"
 
     def render_to_output(self, context: RenderContext, buffer: TextIO) -> int:
         """Render the node to the output buffer."""
